@@ -318,7 +318,7 @@ def m3(ck: Check) -> None:
     if len(upd) != 1 or not isinstance(upd[0].op, ast.BitOr):
         probs.append("the key is not accumulated with |= (per-variable codes could interfere)")
     else:
-        v = upd[0].value
+        v = kf.canon_ast(upd[0].value, kf.cfgn(upd[0]))   # locals that only name a sub-term are looked through
         ok_shape = isinstance(v, ast.BinOp) and isinstance(v.op, ast.LShift) and isinstance(v.left, ast.BinOp) \
             and isinstance(v.left.op, ast.Add) and isinstance(v.right, ast.BinOp) and isinstance(v.right.op, ast.Mult)
         if not ok_shape:
@@ -337,8 +337,22 @@ def m3(ck: Check) -> None:
                     probs.append(f"code {max(codes)} needs more than the {S} bit(s) reserved per variable: keys of "
                                  f"different spaces collide")
                 idx = [x for x in (v.right.left, v.right.right) if not isinstance(x, ast.Constant)][0]
-                if "var" not in text(idx):
+                lps = [n for n in own_walk(kf.f.node) if isinstance(n, ast.For)]
+                keyvar = lps[0].target.elts[0].id if lps and isinstance(lps[0].target, ast.Tuple) and isinstance(lps[0].target.elts[0], ast.Name) else None
+                from_index = False
+                for nm in ast.walk(idx):
+                    if isinstance(nm, ast.Name):
+                        d_ = kf.single_def(nm.id, kf.cfgn(upd[0]))
+                        if d_ and isinstance(d_[1], ast.Call) and callee_name(d_[1]) == "find_variable" and d_[1].args \
+                                and text(d_[1].args[0]) == keyvar:
+                            from_index = True
+                if not from_index:
                     probs.append("shift does not depend on the variable index")
+                val_names = {x.id for x in ast.walk(v.left) if isinstance(x, ast.Name)}
+                valvar = lps[0].target.elts[1].id if lps and isinstance(lps[0].target, ast.Tuple) and len(lps[0].target.elts) > 1 \
+                    and isinstance(lps[0].target.elts[1], ast.Name) else None
+                if valvar not in val_names:
+                    probs.append("the code does not depend on the value of the variable")
         # every item of the space contributes
         loops = [n for n in own_walk(kf.f.node) if isinstance(n, ast.For)]
         if len(loops) != 1 or not text(loops[0].iter).endswith(".items()") or any(
